@@ -2,17 +2,45 @@ package main
 
 import "time"
 
+func setAlgRuns(rc *RunCtx, pairs bool, chainQuick, chainThorough string) []*TLCRun {
+	var runs []*TLCRun
+	if pairs {
+		runs = append(runs, &TLCRun{Module: "MC_SetAlgebra", Cfg: tierPick(rc.Tier, "SetAlgebra_quick.cfg", "SetAlgebra_thorough.cfg"), Timeout: 40 * time.Minute})
+	}
+	runs = append(runs, &TLCRun{Module: "MC_SetAlgebra", Cfg: "SetAlgebra_chain.cfg", Simulate: tierPick(rc.Tier, chainQuick, chainThorough),
+		Depth: 7, Seed: rc.Seed + 1, Workers: 1, Timeout: 30 * time.Minute})
+	return runs
+}
+
+var setAlgAssume = []string{"TLC's evaluation of finite-set operators is the oracle", "denotation is read through Enumerator/Count/Has of the public rel API",
+	"renderer (abstract value -> source) is checked by the literal-level comparison of every recipe against the spec value"}
+
 func init() {
 	props["C01"] = func(rc *RunCtx) int {
 		rep := NewReport("C01", rc.Tier, rc.Seed, "model_checking")
 		rep.Rule = "TLC enumerates every ordered pair of literals (subsets of the element pool up to MaxLit members) and, per pair, the exact result of every set-algebra operator; chains of derived steps are simulated. Each pair is realised in the real code through several recipe pairs (sugar literal, explicit tuples, reversed, with-chain, union of singletons, where-filtered superset, identity map, relation literal, rel API). A case is non-trivial when both operands are non-empty and different; distinct = distinct (a, b) denotations / distinct programs."
-		rep.Assume = []string{"TLC's evaluation of finite-set operators is the oracle", "denotation is read through Enumerator/Count/Has of the public rel API", "renderer (abstract value -> source) is checked by the literal-level comparison of every recipe against the spec value"}
-		runs := []*TLCRun{
-			{Module: "MC_SetAlgebra", Cfg: tierPick(rc.Tier, "SetAlgebra_quick.cfg", "SetAlgebra_thorough.cfg"), Timeout: 40 * time.Minute},
-			{Module: "MC_SetAlgebra", Cfg: "SetAlgebra_chain.cfg", Simulate: tierPick(rc.Tier, "num=1500", "num=60000"), Depth: 6, Seed: rc.Seed + 1, Workers: 1, Timeout: 30 * time.Minute},
-		}
+		rep.Assume = setAlgAssume
 		rep.Exhaust = true
-		runTLCToPool(rep, rc, runs, &Pool{Handler: "setalg-c01"})
+		runTLCToPool(rep, rc, setAlgRuns(rc, true, "num=1500", "num=60000"), &Pool{Handler: "setalg-c01"})
+		return rep.Finish()
+	}
+	props["C02"] = func(rc *RunCtx) int {
+		rep := NewReport("C02", rc.Tier, rc.Seed, "model_checking")
+		rep.Rule = "same SetAlgebra model; for every ordered pair of literals the spec says whether they are the same value (TLA+ =), and every pair of recipes of the two sides is observed at every observation point of the property (=, !=, {a,b} count, with, <:, dict key lookup, dict with both keys, //str.repr, tuple and set wrapping, &); in chains every pair of bindings is compared. Non-trivial: both sides non-empty."
+		rep.Assume = setAlgAssume
+		rep.Exhaust = true
+		runTLCToPool(rep, rc, setAlgRuns(rc, true, "num=1500", "num=40000"), &Pool{Handler: "setalg-c02"})
+		return rep.Finish()
+	}
+	props["C03"] = func(rc *RunCtx) int {
+		rep := NewReport("C03", rc.Tier, rc.Seed, "model_checking")
+		rep.Rule = "branching derivation histories from the SetAlgebra and Keyed models: the spec's env is append-only (TLC checks AppendOnly); the replay keeps every live Go value and re-reads the denotation of every earlier binding after every later step (half of the histories step through the rel API directly, half through compiled operators). Non-trivial: every history (all have >= 3 derivations)."
+		rep.Assume = setAlgAssume
+		runs := setAlgRuns(rc, false, "num=4000", "num=150000")
+		// exhaustive branching histories: one parent, three with/without derivations of it or of its derivatives
+		runs = append(runs, &TLCRun{Module: "MC_SetAlgebra", Cfg: tierPick(rc.Tier, "SetAlgebra_branchq.cfg", "SetAlgebra_brancht.cfg"), Timeout: 40 * time.Minute})
+		runs = append(runs, keyedRuns(rc, "num=4000", "num=150000")...)
+		runTLCToPool(rep, rc, runs, &Pool{Handler: "multi-c03"})
 		return rep.Finish()
 	}
 }
